@@ -57,13 +57,32 @@ impl SchemeSpec {
         b.build()
     }
 
+    /// A parser configured with this spec's settings. The public API offers two routes to a
+    /// configured parser — the setters on a default parser, and a `ParserSettings` struct
+    /// (`Scheme::parser_with_settings`) — and both are exercised: the route alternates from
+    /// call to call (`parser_via` picks one explicitly).
     pub fn parser<'s>(&self, scheme: &'s Scheme) -> FilterParser<'s> {
-        let mut p = FilterParser::new(scheme);
-        p.set_max_nesting_depth(self.max_depth);
-        if let Some(l) = self.star_limit {
-            p.wildcard_set_star_limit(l);
+        use std::sync::atomic::{AtomicUsize, Ordering};
+        static ROUTE: AtomicUsize = AtomicUsize::new(0);
+        self.parser_via(scheme, ROUTE.fetch_add(1, Ordering::Relaxed) % 2 == 0)
+    }
+
+    pub fn parser_via<'s>(&self, scheme: &'s Scheme, setters: bool) -> FilterParser<'s> {
+        if setters {
+            let mut p = FilterParser::new(scheme);
+            p.set_max_nesting_depth(self.max_depth);
+            if let Some(l) = self.star_limit {
+                p.wildcard_set_star_limit(l);
+            }
+            p
+        } else {
+            let mut st = wirefilter::ParserSettings::default();
+            st.max_nesting_depth = self.max_depth;
+            if let Some(l) = self.star_limit {
+                st.wildcard_star_limit = l;
+            }
+            scheme.parser_with_settings(st)
         }
-        p
     }
 
     pub fn op_line(&self) -> String {
